@@ -9,6 +9,7 @@ from props import accessspec as spec
 from props import visitlib as vl
 
 PID = "C01"
+TABLES = ["RC"]
 
 WITNESSES = '''
 def w_slice(a, b):
@@ -55,6 +56,7 @@ def run(tier, seed, build):
     from props.bodygen import PREAMBLE
     cases = vl.run_batch(rng, n_modules, model, extra_sources=[(PREAMBLE + WITNESSES, wit_names)])
     cases += vl.run_file_batch(rng, n_modules // 3, model)
+    __import__("props.filestage").filestage.run_file_stage(res, random.Random(seed + 7001), 120 if tier == "quick" else 1500, model)
     for c in cases:
         res.evaluations += 1
         case = {"function": c.fn_src}
